@@ -102,6 +102,7 @@ def run(prog: Program, rep: Report, tier: str) -> None:
     rep.rule("R5.4", "exactly one callback per accepted datagram, with the device class of the type's category", 9)
     rep.rule("R5.5", "OFF normalisation: power, current and remaining time are 0 / 0.0 / '00:00:00' exactly when the reported state is not ON", 7)
     rep.rule("R5.7", "fields that are normalised away when the device is not ON (power, remaining time) are not even examined on that path: their bytes cannot make a not-ON broadcast fail to be delivered", 6)
+    rep.rule("R5.8", "only the device's own fields are examined: for every device type, no guard of any path of the builder (delivering or raising) reads datagram bytes outside the fields of the delivered class, the magic, the model and the state byte", 9)
     rep.rule("R5.6", "helper normal forms: seconds_to_iso_time(x) = time(x//3600, (x//60)%60, x%60).isoformat(); watts_to_amps(w) = round(w/220, 1)", 2)
     rep.trusted += [
         "socket.inet_ntoa, bytes.decode, datetime.time.isoformat, round (library behaviour)",
@@ -229,6 +230,8 @@ def run(prog: Program, rep: Report, tier: str) -> None:
         if cat in ("WATER_HEATER", "POWER_PLUG"):
             bad57 = ignored_field_dependence(prog, spec, m, cat, want_cls[0], outs, on)
             rep.check(bad57 is None, "R5.7", f"{m}", where, bad57 or "", key=f"R5.7|{want_cls[0]}")
+        bad58 = foreign_field_dependence(prog, spec, m, want_cls[0], outs)
+        rep.check(bad58 is None, "R5.8", f"{m}", where, bad58 or "", key=f"R5.8|{want_cls[0]}")
         for fname, why in field_ok.items():
             rid = "R5.3"
             inst = f"{m}.{fname}"
@@ -265,6 +268,53 @@ def ignored_field_dependence(prog: Program, spec: Dict[str, Any], m: str, cat: s
                 bad57 = (f"on the path where {m} reports not-ON, the outcome ({'raises ' + o.exc_name if o.kind == 'raise' else 'delivery'}) depends on nibbles {sorted(touched)} of a field that is "
                          f"reported as zero in that state (guard {T.show(g)[:160]}): an OFF broadcast with an out-of-range value there is no longer delivered")
     return bad57
+
+
+def foreign_field_dependence(prog: Program, spec: Dict[str, Any], m: str, cls_name: str, outs: List[Outcome]) -> Optional[str]:
+    """Does the outcome for device type m (delivery or a raise) depend on datagram bytes that belong to no field of
+    the delivered class?  A plug has no remaining-time field: junk in those bytes must not matter."""
+    dspec0 = spec["devices"][cls_name]["fields"]
+    allowed: List[Tuple[int, int]] = [(0, 4)]
+    state_term = expected_role(prog, spec, dspec0["device_state"], None)
+    for fname, role in dspec0.items():
+        for term in (expected_role(prog, spec, role, state_term),):
+            allowed.extend(LS.nibble_ranges(term, MSG))
+            # guards of choices inside the expected term (the state byte of 'if ON') are legitimate reads too
+            allowed.extend(_guard_ranges(term))
+        if role in spec["getters"]:
+            # forms listed as accepted equivalents of a getter (the legacy shutter position reads byte 136 too)
+            for alt in spec["getters"][role].get("accept", []):
+                allowed.extend(LS.nibble_ranges(LS.term_of(prog, alt, MSG), MSG))
+    allowed.extend(LS.nibble_ranges(LS.term_of(prog, spec["model"], MSG), MSG))
+
+    def covered(r: Tuple[int, int]) -> bool:
+        return any(a <= r[0] and r[1] <= b for a, b in allowed if a is not None and b is not None)
+
+    from ..interp import neg as _ng
+    # only conditions that decide between delivering and raising matter: the trigger of each raising path
+    triggers = {o.state.pc[-1] for o in outs if o.kind == "raise" and o.state.pc}
+    for o in outs:
+        for g in o.state.pc:
+            if g not in triggers and _ng(g) not in triggers:
+                continue
+            for r in LS.nibble_ranges(g, MSG) + _guard_ranges(g):
+                if r[0] is None or r[1] is None:
+                    continue
+                if not covered(r):
+                    what = f"raises {o.exc_name}" if o.kind == "raise" else "is delivered"
+                    return (f"whether a {m} broadcast {what} depends on nibbles {r} of the datagram (guard {T.show(g)[:140]}), which belong to no field of {cls_name}: "
+                            f"arbitrary bytes there can now keep a valid broadcast from being delivered")
+    return None
+
+
+def _guard_ranges(v: Any) -> List[Tuple[int, int]]:
+    out: List[Tuple[int, int]] = []
+    if isinstance(v, tuple):
+        if len(v) == 4 and v[0] == "ite":
+            out.extend(LS.nibble_ranges(("g", v[1]), MSG))
+        for x in v:
+            out.extend(_guard_ranges(x))
+    return out
 
 
 def parse_outcomes_for(prog: Program, m: str) -> Tuple[Interp, List[Outcome]]:
